@@ -270,3 +270,152 @@ pub(crate) fn h_check_axis_datatype_dispatch() {
         vrt_check(limit_errors == 0, "C12 Y axis limits inside the UWORD range of AXIS_PTS_Y are no limit error");
     }
 }
+
+// ------------------------------------------------------------------ C10: cleanup removes only, and all, unreferenced helpers
+
+fn xref_errors(file: &A2lFile) -> usize {
+    let mut n = 0;
+    for e in file.check().iter() {
+        if let A2lError::CrossReferenceError { .. } = e { n += 1; }
+    }
+    n
+}
+
+/// helper element `hx` that is referenced from exactly one (possibly unusual) site, chosen by `site`
+fn cleanup_case(site: u32) -> (String, &'static str, &'static str) {
+    // returns (text, kind of the helper under test, name of the helper under test)
+    let mut t = String::from("ASAP2_VERSION 1 71 /begin PROJECT p \"\" /begin MODULE m \"\"\n");
+    if site == 5 { t.push_str("/begin MOD_COMMON \"\" S_REC_LAYOUT hx /end MOD_COMMON\n"); }
+    t.push_str("/begin RECORD_LAYOUT rl FNC_VALUES 1 UBYTE ROW_DIR DIRECT AXIS_PTS_X 1 UBYTE INDEX_INCR DIRECT /end RECORD_LAYOUT\n");
+    t.push_str("/begin COMPU_METHOD cm \"\" TAB_INTP \"%6.3\" \"\"");
+    if site == 1 { t.push_str(" STATUS_STRING_REF hx"); }
+    if site == 2 { t.push_str(" COMPU_TAB_REF hx"); }
+    if site == 3 { t.push_str(" REF_UNIT hx"); }
+    if site == 4 { t.push_str(" REF_UNIT u1"); }
+    t.push_str(" /end COMPU_METHOD\n");
+    t.push_str("/begin MEASUREMENT ms \"\" UBYTE cm 0 0 0 255");
+    if site == 12 { t.push_str(" /begin FUNCTION_LIST hx /end FUNCTION_LIST"); }
+    t.push_str(" /end MEASUREMENT\n");
+    t.push_str("/begin CHARACTERISTIC ch \"\" VALUE 0 rl 0 NO_COMPU_METHOD 0 255 /end CHARACTERISTIC\n");
+    let (kind, name): (&'static str, &'static str) = match site {
+        1 => { t.push_str("/begin COMPU_VTAB hx \"\" TAB_VERB 1 1 \"x\" /end COMPU_VTAB\n"); ("COMPU_VTAB", "hx") }
+        2 => { t.push_str("/begin COMPU_VTAB_RANGE hx \"\" 1 1 2 \"x\" /end COMPU_VTAB_RANGE\n"); ("COMPU_VTAB_RANGE", "hx") }
+        3 => { t.push_str("/begin UNIT hx \"\" \"\" DERIVED /end UNIT\n"); ("UNIT", "hx") }
+        4 => {
+            // chain u1 -> u2 -> hx, u1 referenced by the used COMPU_METHOD
+            t.push_str("/begin UNIT u1 \"\" \"\" DERIVED REF_UNIT u2 /end UNIT\n/begin UNIT u2 \"\" \"\" DERIVED REF_UNIT hx /end UNIT\n/begin UNIT hx \"\" \"\" DERIVED /end UNIT\n");
+            ("UNIT", "hx")
+        }
+        5 => { t.push_str("/begin RECORD_LAYOUT hx FNC_VALUES 1 UBYTE ROW_DIR DIRECT /end RECORD_LAYOUT\n"); ("RECORD_LAYOUT", "hx") }
+        6 => {
+            t.push_str("/begin RECORD_LAYOUT hx AXIS_PTS_X 1 UBYTE INDEX_INCR DIRECT /end RECORD_LAYOUT\n/begin TYPEDEF_AXIS ta \"\" NO_INPUT_QUANTITY hx 0 NO_COMPU_METHOD 2 0 255 /end TYPEDEF_AXIS\n");
+            ("RECORD_LAYOUT", "hx")
+        }
+        7 => {
+            t.push_str("/begin RECORD_LAYOUT hx FNC_VALUES 1 UBYTE ROW_DIR DIRECT /end RECORD_LAYOUT\n/begin TYPEDEF_CHARACTERISTIC tc \"\" VALUE hx 0 NO_COMPU_METHOD 0 255 /end TYPEDEF_CHARACTERISTIC\n");
+            ("RECORD_LAYOUT", "hx")
+        }
+        8 => {
+            // COMPU_METHOD referenced only from an AXIS_DESCR inside a TYPEDEF_CHARACTERISTIC
+            t.push_str("/begin COMPU_METHOD hx \"\" IDENTICAL \"%6.3\" \"\" /end COMPU_METHOD\n");
+            t.push_str("/begin TYPEDEF_CHARACTERISTIC tc \"\" CURVE rl 0 NO_COMPU_METHOD 0 255 /begin AXIS_DESCR STD_AXIS NO_INPUT_QUANTITY hx 2 0 255 /end AXIS_DESCR /end TYPEDEF_CHARACTERISTIC\n");
+            ("COMPU_METHOD", "hx")
+        }
+        9 => {
+            // COMPU_METHOD referenced only from an INSTANCE OVERWRITE
+            t.push_str("/begin COMPU_METHOD hx \"\" IDENTICAL \"%6.3\" \"\" /end COMPU_METHOD\n");
+            t.push_str("/begin TYPEDEF_MEASUREMENT tm \"\" UBYTE NO_COMPU_METHOD 0 0 0 255 /end TYPEDEF_MEASUREMENT\n");
+            t.push_str("/begin INSTANCE inst \"\" tm 0x10 /begin OVERWRITE inst 0 CONVERSION hx /end OVERWRITE /end INSTANCE\n");
+            ("COMPU_METHOD", "hx")
+        }
+        10 => {
+            // COMPU_METHOD referenced only from a TYPEDEF_MEASUREMENT
+            t.push_str("/begin COMPU_METHOD hx \"\" IDENTICAL \"%6.3\" \"\" /end COMPU_METHOD\n/begin TYPEDEF_MEASUREMENT tm \"\" UBYTE hx 0 0 0 255 /end TYPEDEF_MEASUREMENT\n");
+            ("COMPU_METHOD", "hx")
+        }
+        11 => {
+            // empty GROUP referenced only from USER_RIGHTS
+            t.push_str("/begin GROUP hx \"\" /end GROUP\n/begin USER_RIGHTS usr /begin REF_GROUP hx /end REF_GROUP /end USER_RIGHTS\n");
+            ("GROUP", "hx")
+        }
+        12 => { t.push_str("/begin FUNCTION hx \"\" /end FUNCTION\n"); ("FUNCTION", "hx") }
+        13 => {
+            // empty FUNCTION referenced only from a GROUP's FUNCTION_LIST
+            t.push_str("/begin FUNCTION hx \"\" /end FUNCTION\n/begin GROUP g \"\" ROOT /begin REF_MEASUREMENT ms /end REF_MEASUREMENT /begin FUNCTION_LIST hx /end FUNCTION_LIST /end GROUP\n");
+            ("FUNCTION", "hx")
+        }
+        14 => {
+            // GROUP chain: g (non-empty) -> SUB_GROUP hx (non-empty)
+            t.push_str("/begin GROUP g \"\" ROOT /begin SUB_GROUP hx /end SUB_GROUP /end GROUP\n/begin GROUP hx \"\" /begin REF_CHARACTERISTIC ch /end REF_CHARACTERISTIC /end GROUP\n");
+            ("GROUP", "hx")
+        }
+        _ => ("", ""),
+    };
+    // unreferenced helpers of every kind: must all be removed
+    t.push_str("/begin COMPU_METHOD zcm \"\" IDENTICAL \"%6.3\" \"\" /end COMPU_METHOD\n/begin COMPU_TAB zct \"\" TAB_INTP 1 1 1 /end COMPU_TAB\n");
+    t.push_str("/begin COMPU_VTAB zcv \"\" TAB_VERB 1 1 \"x\" /end COMPU_VTAB\n/begin UNIT zun \"\" \"\" DERIVED /end UNIT\n");
+    t.push_str("/begin RECORD_LAYOUT zrl /end RECORD_LAYOUT\n/begin GROUP zg \"\" /end GROUP\n/begin FUNCTION zfn \"\" /end FUNCTION\n");
+    t.push_str("/end MODULE /end PROJECT");
+    (t, kind, name)
+}
+
+fn helper_present(m: &Module, kind: &str, name: &str) -> bool {
+    match kind {
+        "COMPU_METHOD" => m.compu_method.contains_key(name),
+        "COMPU_VTAB" => m.compu_vtab.contains_key(name),
+        "COMPU_VTAB_RANGE" => m.compu_vtab_range.contains_key(name),
+        "UNIT" => m.unit.contains_key(name),
+        "RECORD_LAYOUT" => m.record_layout.contains_key(name),
+        "GROUP" => m.group.contains_key(name),
+        "FUNCTION" => m.function.contains_key(name),
+        _ => true,
+    }
+}
+
+pub(crate) fn h_cleanup_sites() {
+    let site = vrt_choice(15);
+    let (text, kind, name) = cleanup_case(site);
+    let (mut file, _log) = load_from_string(&text, None, true).unwrap();
+    let before = file.clone();
+    vrt_check(xref_errors(&before) == 0, "C10 harness template is consistent");
+    file.cleanup();
+    {
+        let m = &file.project.module[0];
+        let b = &before.project.module[0];
+        vrt_check(m.measurement == b.measurement && m.characteristic == b.characteristic && m.axis_pts == b.axis_pts
+            && m.instance == b.instance && m.blob == b.blob, "C10 cleanup never removes or alters measurement / calibration objects");
+        vrt_check(m.typedef_axis == b.typedef_axis && m.typedef_blob == b.typedef_blob && m.typedef_characteristic == b.typedef_characteristic
+            && m.typedef_measurement == b.typedef_measurement && m.typedef_structure == b.typedef_structure, "C10 cleanup never removes or alters typedefs");
+        vrt_check(helper_present(m, kind, name), "C10 cleanup never removes a helper that is still referenced from a reference site of the grammar");
+        vrt_check(!m.compu_method.contains_key("zcm") && !m.compu_tab.contains_key("zct") && !m.compu_vtab.contains_key("zcv")
+            && !m.unit.contains_key("zun") && !m.record_layout.contains_key("zrl") && !m.group.contains_key("zg") && !m.function.contains_key("zfn"),
+            "C10 cleanup removes every unreferenced helper");
+    }
+    vrt_check(xref_errors(&file) == 0, "C10 a file whose references all resolve still resolves after cleanup");
+    let once = file.clone();
+    file.cleanup();
+    vrt_check(file == once, "C10 running cleanup twice gives the same result as running it once");
+}
+
+/// UNIT chains that are not anchored in a used COMPU_METHOD: idempotence
+pub(crate) fn h_cleanup_unit_chain() {
+    let n = vrt_choice(4); // length of the chain ux0 -> ux1 -> ...
+    let mut t = String::from("ASAP2_VERSION 1 71 /begin PROJECT p \"\" /begin MODULE m \"\"\n");
+    for i in 0..n {
+        t.push_str("/begin UNIT ux");
+        t.push((b'0' + i as u8) as char);
+        t.push_str(" \"\" \"\" DERIVED");
+        if i + 1 < n {
+            t.push_str(" REF_UNIT ux");
+            t.push((b'0' + i as u8 + 1) as char);
+        }
+        t.push_str(" /end UNIT\n");
+    }
+    t.push_str("/end MODULE /end PROJECT");
+    let (mut file, _) = load_from_string(&t, None, true).unwrap();
+    file.cleanup();
+    let once = file.clone();
+    file.cleanup();
+    vrt_check(file == once, "C10 running cleanup twice gives the same result as running it once");
+    vrt_check(xref_errors(&file) == 0, "C10 a file whose references all resolve still resolves after cleanup");
+}
